@@ -123,7 +123,7 @@ class Recorder:
     remove_unfinished log (call, answer, snapshot of the public state after).
     Calls the child makes on itself (ask -> self.tell_pending) are not logged."""
 
-    NAMES = ("ask", "tell", "tell_pending", "remove_unfinished")
+    NAMES = ("ask", "tell", "tell_many", "tell_pending", "remove_unfinished")
 
     def __init__(self, kind: str, child, index: int = 0, on_call=None):
         self.kind, self.child, self.index = kind, child, index
@@ -156,6 +156,23 @@ class Recorder:
         child = self.child
         if self.depth > 0:
             return orig(child, *args, **kwargs)
+        if name == "tell_many":
+            # a wrapper that forwards a whole batch: recorded as the sequence of its tells (the
+            # intermediate states are not observable); one-shot iterables are materialised first
+            xs, ys = list(args[0]), list(args[1])
+            self.depth += 1
+            try:
+                ret = orig(child, xs, ys, *args[2:], **kwargs)
+            finally:
+                self.depth -= 1
+            after = self.snapshot()
+            for x, y in zip(xs, ys):
+                e = {"name": "tell", "pts": [], "imps": [], "raw_pts": [],
+                     "call": ("tell", enc_point(self.kind, x), float(y)), "after": after}
+                self.log.append(e)
+                if self.on_call:
+                    self.on_call(self, e)
+            return ret
         self.depth += 1
         try:
             ret = orig(child, *args, **kwargs)
